@@ -2,7 +2,8 @@
 
 JSON program:
   {"tempos": [q..], "bodies": [[act..]..], "nconds": n, "nflows": n, "mseed": int, "tail": q}
-  act = ["Y", q] | ["S", lat, [elem..]] | ["P", b, clock] | ["F", b] | ["T", i, q] | ["seed", s] | ["D", req]
+  act = ["Y", q] | ["S", lat, [elem..]] | ["P", b, clock] | ["F", b] | ["T", i, q] | ["sb", i, q] (tempoclocks[i].beats = q)
+      | ["seed", s] | ["D", req]
       | ["SB", k]   (send the SAME nested list object shared[k] = [lat, [elem..]] again: a template kept in a variable)
       | quantisation API of TempoClock i, called from inside the routine, results logged as values (NOT in the Coq model:
         compared NRT vs NRT vs RT only):  ["nb", i] next_bar() | ["nbb", i, q] next_bar(q) | ["ntg", i, quant, phase]
@@ -99,7 +100,7 @@ class XRun:
         self.latest = {}            # body -> rid
         self.clocks = []
         self.extra_clocks = []
-        self.has_tempo_change = any(a[0] == 'T' for b_ in prog['bodies'] for a in b_)
+        self.has_tempo_change = any(a[0] in ('T', 'sb') for b_ in prog['bodies'] for a in b_)
         self.nfun = {}
         self.conds = [Condition() for _ in range(prog['nconds'])]
         self.flows = [FlowVar() for _ in range(prog['nflows'])]
@@ -238,6 +239,12 @@ class XRun:
                 self.events.append(['tempo', org, a[1], a[2], False])
                 return False
             return self.do_tempo(org, a[1], a[2])
+        if kind == 'sb':            # the documented beats setter; logged as a 'tempo' event with index 1000 + i
+            if a[1] >= len(self.clocks):
+                return False
+            self.clocks[a[1]].beats = num(a[2])
+            self.events.append(['tempo', org, 1000 + a[1], a[2], True])
+            return True
         if kind in ('nb', 'nbb', 'ntg', 'ttnb', 'bar', 'cb', 'bpb', 'pnb', 'PQ', 'CP', 'sch', 'scha', 'newc'):
             return self.quant_act(rid, k, a, cclk)
         if kind == 'seed':
